@@ -26,7 +26,8 @@ REQUIRED = ['bipropCheck_sound', 'bipropCheckL_sound', 'infeasible_sound', 'infe
             'augment_preserves_columns', 'transfer_cell_up', 'transfer_cell_down', 'transfer_preserves_inv',
             'update_preserves_inv', 'step_done_rows', 'run_ok_rows', 'run_preserves_columns', 'run_ok_sound',
             'evaluate_ok_sound', 'initState_consistent', 'evaluate_sound', 'evaluate_marginals',
-            'partySeats_divisor_method', 'districtSeats_divisor_method']
+            'partySeats_divisor_method', 'districtSeats_divisor_method',
+            'step_refusal_justified', 'run_refusal_justified', 'evaluate_refusal_justified']
 REQUIRED_COUNTERS = ['transfer_step', 'coef_update', 'zero_cell', 'refusal', 'tie_in_initial_allocation',
                      'zero_vote_party', 'seats_total', 'seats_dict', 'seats_custom', 'd_hondt', 'sainte_lague',
                      'cert_checked_by_lean', 'cut_checked_by_lean', 'large_counts', 'str_keys', 'init_ok_confirmed',
@@ -40,18 +41,19 @@ RULE = ('2-6 districts x 2-6 parties, non-negative integer votes (tiny 0-3, smal
 NOT_VERIFIED = [
     'termination of the tie-and-transfer loop is runtime behaviour: monitored by wall clock only (5 s per call); the Lean '
     'port takes fuel and reports OutOfFuel instead of diverging',
-    'the tie-and-transfer algorithm is not proved to reach a fixed point (no termination / no-spurious-refusal theorem); '
-    'every output is certified instead.  Partial correctness of the port IS proved without semantic hypotheses '
-    '(evaluate_sound, evaluate_marginals); it carries over to votelib only through the differential correspondence',
+    'the tie-and-transfer algorithm is not proved to terminate; every output is certified instead.  Partial correctness of '
+    'the port (evaluate_sound, evaluate_marginals) and "refuses only infeasible instances" (evaluate_refusal_justified) ARE '
+    'proved without semantic hypotheses; they carry over to votelib only through the differential correspondence',
     'frozenset iteration order of _districts_unsat: modelled as ascending district index (CPython order for the small-int '
     'keys used in the correspondence); with str keys the order depends on the hash seed, those cases are certificate-checked '
     'only',
     'HighestAverages sorted-list/bisect bookkeeping is modelled as a pool from which the batch of maximal quotients is taken',
     'SIGNPOST_QS lookup: q is read from the real class attribute and passed to the model',
 ]
-UNPROVED = ['total correctness of tie-and-transfer (termination; a feasible instance is never refused): not proved - every '
-            'refusal of the real evaluator is certified infeasible by the verified cut checker instead, termination is '
-            'monitored by wall clock']
+UNPROVED = ['termination of tie-and-transfer (the port reports OutOfFuel; no decreasing measure proved): monitored by wall '
+            'clock on the real code',
+            'crash-freedom of the loop (KeyError of _augment_result / ZeroDivisionError of _adj_coef unreachable in a consistent '
+            'state): not proved; the oracle reports any such exception of the real code as a violation']
 EXHAUSTIVE = {'thorough': True}
 TECHNIQUE = ('verified certificate checkers in Lean 4 (soundness proved for matrices of any size) applied to every output of the '
              'real evaluator, exact certificates computed by the harness; plus a fuelled Lean port of tie-and-transfer with '
@@ -63,7 +65,9 @@ LEVEL_TEXT = ('Every output (seat matrix or refusal) of the real BiproportionalE
               'multiplier update) is ported to Lean and proved partially correct for all matrices, seat totals and both divisor rules: '
               'whatever it returns meets the district apportionment, has the highest-averages party apportionment as column sums (itself '
               'proved a divisor-method apportionment), seats no zero-vote cell and is a cell-wise rounding under its final multipliers '
-              '(evaluate_sound, evaluate_marginals); the port is compared step for step with votelib on every check.')
+              '(evaluate_sound, evaluate_marginals), and a VotingSystemError of the port is proved to occur only when no seat matrix with '
+              'these marginals and zero cells exists (evaluate_refusal_justified: the labels at the refusal are a Hall cut accepted '
+              'by the verified checker); the port is compared step for step with votelib on every check.')
 LEVEL_NOTE = ('Trusted: Lean kernel + propext/Classical.choice/Quot.sound; translate.py for the divisor functions; the certificate '
               'search (Bellman-Ford / max-flow) is untrusted - a wrong certificate is rejected by the verified checker, a missing '
               'one is reported as a violation; generator bounds 2-6 x 2-6; termination by wall clock only.')
